@@ -13,7 +13,6 @@ from __future__ import annotations
 import asyncio
 import copy
 import json
-from functools import lru_cache
 from pathlib import Path
 
 from .common import VERIF
@@ -58,24 +57,35 @@ def layer(pairs) -> dict:
     return {conc(k): to_py(v) for k, v in pairs}
 
 
-@lru_cache(maxsize=64)
-def _env_class(trim: str, suppress: bool, shorthand: bool, limits: tuple):
-    from liquid2 import Environment
+_ENV_CLASSES: dict = {}
 
-    class Env(Environment):
-        suppress_blank_control_flow_blocks = suppress
-        shorthand_indexes = shorthand
 
+def _env_class(trim: str, suppress: bool, shorthand: bool, limits: tuple, shopify: bool = False):
+    """Environment subclass for a configuration; module-level (so that templates pickle)."""
+    key = (suppress, shorthand, limits, shopify)
+    if key in _ENV_CLASSES:
+        return _ENV_CLASSES[key]
+    if shopify:
+        from liquid2.shopify import Environment
+    else:
+        from liquid2 import Environment
     out, loop, depth, ns = limits
+    attrs = {"suppress_blank_control_flow_blocks": suppress, "shorthand_indexes": shorthand}
     if out is not None:
-        Env.output_stream_limit = out
+        attrs["output_stream_limit"] = out
     if loop is not None:
-        Env.loop_iteration_limit = loop
+        attrs["loop_iteration_limit"] = loop
     if depth is not None:
-        Env.context_depth_limit = depth
+        attrs["context_depth_limit"] = depth
     if ns is not None:
-        Env.local_namespace_limit = ns
-    return Env
+        attrs["local_namespace_limit"] = ns
+    name = "Env_" + "_".join(str(x) for x in (int(suppress), int(shorthand), *limits, int(shopify))).replace("-", "m").replace("None", "n")
+    attrs["__module__"] = __name__
+    attrs["__qualname__"] = name
+    cls = type(name, (Environment,), attrs)
+    globals()[name] = cls
+    _ENV_CLASSES[key] = cls
+    return cls
 
 
 def make_env(cfg: dict, *, loader=None, env_globals=None):
@@ -85,7 +95,8 @@ def make_env(cfg: dict, *, loader=None, env_globals=None):
     und = {"default": Undefined, "strict": StrictUndefined, "falsy": FalsyStrictUndefined}
     lim = cfg.get("limits") or {}
     limits = tuple(None if lim.get(k) in (None, -1) else lim.get(k) for k in ("out", "loop", "depth", "ns"))
-    cls = _env_class(cfg.get("trim", "+"), bool(cfg.get("suppress", True)), bool(cfg.get("shorthand", False)), limits)
+    cls = _env_class(cfg.get("trim", "+"), bool(cfg.get("suppress", True)), bool(cfg.get("shorthand", False)), limits,
+                     bool(cfg.get("shopify", False)))
     return cls(loader=loader, globals=env_globals or None, auto_escape=bool(cfg.get("autoescape", False)),
                undefined=und[cfg.get("undef", "default")], default_trim=wc[cfg.get("trim", "+")])
 
